@@ -144,6 +144,13 @@ Definition accepted_from_attestations (m : ovf) (n : option note) (added : list 
        end.
 
 (* ---------- stats_from_authorship_log ---------- *)
+(* the body of the loop over log.metadata.prompts.values() on the tool entry *)
+Definition tool_add_prompt (m : ovf) (p : prompt) (t : tool_stats) : sres tool_stats :=
+  sbind (uadd m (t_total_add t) (p_total_add p)) (fun a =>
+  sbind (uadd m (t_total_del t) (p_total_del p)) (fun d =>
+  sbind (uadd m (t_mixed t) (p_overriden p)) (fun x =>
+  SOk (mkTool (t_ai_additions t) x (t_accepted t) a d)))).
+
 (* the loop over log.metadata.prompts.values(); state = (total_add, total_del, mixed, tools) *)
 Definition prompt_step (m : ovf) (st : N * N * N * list (str * tool_stats)) (hp : str * prompt)
     : sres (N * N * N * list (str * tool_stats)) :=
@@ -152,13 +159,7 @@ Definition prompt_step (m : ovf) (st : N * N * N * list (str * tool_stats)) (hp 
   sbind (uadd m ta (p_total_add p)) (fun ta' =>
   sbind (uadd m td (p_total_del p)) (fun td' =>
   sbind (uadd m mx (p_overriden p)) (fun mx' =>
-  sbind (map_upd tool_default (tool_key p)
-           (fun t =>
-              sbind (uadd m (t_total_add t) (p_total_add p)) (fun a =>
-              sbind (uadd m (t_total_del t) (p_total_del p)) (fun d =>
-              sbind (uadd m (t_mixed t) (p_overriden p)) (fun x =>
-              SOk (mkTool (t_ai_additions t) x (t_accepted t) a d)))))
-           tools) (fun tools' =>
+  sbind (map_upd tool_default (tool_key p) (tool_add_prompt m p) tools) (fun tools' =>
   SOk (ta', td', mx', tools'))))).
 
 Definition set_accepted (acc : N) (t : tool_stats) : tool_stats :=
@@ -167,20 +168,29 @@ Definition set_accepted (acc : N) (t : tool_stats) : tool_stats :=
 Definition set_ai (a : N) (t : tool_stats) : tool_stats :=
   mkTool a (t_mixed t) (t_accepted t) (t_total_add t) (t_total_del t).
 
+(* tool_stats.ai_accepted = *accepted, for (tool_model, accepted) in ai_accepted_by_tool *)
+Definition accepted_step (ts : list (str * tool_stats)) (ka : str * N) : sres (list (str * tool_stats)) :=
+  map_upd tool_default (fst ka) (fun t => SOk (set_accepted (snd ka) t)) ts.
+
+(* tool_stats.ai_additions = tool_stats.ai_accepted + tool_stats.mixed_additions *)
+Definition tool_finish (m : ovf) (kt : str * tool_stats) : sres (str * tool_stats) :=
+  sbind (uadd m (t_accepted (snd kt)) (t_mixed (snd kt))) (fun a => SOk (fst kt, set_ai a (snd kt))).
+
+Definition note_atts (n : option note) : list fatt := match n with Some n => n_atts n | None => [] end.
+Definition note_prompts (n : option note) : list (str * prompt) :=
+  match n with Some n => n_prompts n | None => [] end.
+
 Definition stats_from_log (m : ovf) (n : option note) (git_added git_deleted ai_accepted : N)
     (by_tool : list (str * N)) : sres stats :=
-  sbind (fold_res (prompt_step m) (match n with Some n => n_prompts n | None => [] end) (0, 0, 0, []))
-    (fun st =>
+  sbind (fold_res (prompt_step m) (note_prompts n) (0, 0, 0, [])) (fun st =>
   let '(ta, td, mx, tools) := st in
   (* cap of the total mixed additions *)
   let max_mixed := sat_sub git_added ai_accepted in
   let mixed := if max_mixed <? mx then max_mixed else mx in
   (* tool-level accepted counts *)
-  sbind (fold_res (fun ts ka => map_upd tool_default (fst ka) (fun t => SOk (set_accepted (snd ka) t)) ts)
-           by_tool tools) (fun tools1 =>
+  sbind (fold_res accepted_step by_tool tools) (fun tools1 =>
   sbind (uadd m mixed ai_accepted) (fun ai =>
-  sbind (map_res (fun kt => sbind (uadd m (t_accepted (snd kt)) (t_mixed (snd kt)))
-                              (fun a => SOk (fst kt, set_ai a (snd kt)))) tools1) (fun tools2 =>
+  sbind (map_res (tool_finish m) tools1) (fun tools2 =>
   let human := sat_sub git_added ai_accepted in
   SOk (mkStats human mixed ai ai_accepted ta td git_deleted git_added tools2))))).
 
@@ -267,15 +277,26 @@ Fixpoint str_nodup (l : list str) : bool :=
   | x :: l' => negb (existsb (str_eqb x) l') && str_nodup l'
   end.
 
-(* what a well-formed note satisfies (C05): per file all listed ranges are pairwise disjoint,
-   no file has two sections, every session hash has a prompt record *)
-Definition note_ok (n : note) : bool :=
-  forallb (fun fa => pairwise ranges_disjoint (all_ranges (f_entries fa))) (n_atts n)
-  && str_nodup (map f_path (n_atts n))
-  && forallb (fun fa => forallb (fun e => match lookup (e_hash e) (n_prompts n) with Some _ => true | None => false end)
-                          (f_entries fa)) (n_atts n).
+(* what a well-formed note satisfies (C05), in three independent parts:
+   per file all listed ranges are pairwise disjoint as line sets; no file has two sections;
+   every session hash has a prompt record *)
+Definition note_disjoint (n : note) : bool :=
+  forallb (fun fa => pairwise ranges_disjoint (all_ranges (f_entries fa))) (n_atts n).
 
-Definition onote_ok (n : option note) : bool := match n with Some n => note_ok n | None => true end.
+Definition note_paths_unique (n : note) : bool := str_nodup (map f_path (n_atts n)).
+
+Definition note_prompts_present (n : note) : bool :=
+  forallb (fun fa => forallb (fun e => match lookup (e_hash e) (n_prompts n) with Some _ => true | None => false end)
+                       (f_entries fa)) (n_atts n).
+
+Definition note_ok (n : note) : bool :=
+  note_disjoint n && note_paths_unique n && note_prompts_present n.
+
+(* a commit without a note satisfies all of them *)
+Definition olift (p : note -> bool) (n : option note) : bool :=
+  match n with Some n => p n | None => true end.
+
+Definition onote_ok (n : option note) : bool := olift note_ok n.
 
 (* number of distinct added lines of non-ignored files = what numstat must report as added *)
 Definition added_count (ignored : str -> bool) (raw : list (str * list N)) : N :=
